@@ -516,6 +516,7 @@ pub struct World {
     /// columns reparsed since the last tick (bit mask) and the number of ticks that followed edits of two or more columns
     pub edited_mask: u32,
     pub multi_edit_ticks: u64,
+    pub order_checks: u64,
 }
 
 fn snap_pattern_string(snap: &Snapshot<Payload>, cols: usize) -> String {
@@ -567,6 +568,7 @@ impl World {
             trail: Vec::new(),
             edited_mask: 0,
             multi_edit_ticks: 0,
+            order_checks: 0,
         }
     }
 
@@ -907,6 +909,7 @@ impl World {
         let item_count = snap.item_count();
         let pat = snap_pattern_string(snap, cols);
         let mut problems: Vec<(String, String, String)> = Vec::new();
+        let mut order_checks = 0u64;
         // (capped per property: problems of one property must not crowd out those of another)
         let mut p = |prop: &str, kind: &str, msg: String| {
             if problems.iter().filter(|x| x.0 == prop).count() < 4 {
@@ -1017,6 +1020,9 @@ impl World {
         }
         // order
         let empty_pattern = snap.pattern().is_empty();
+        if !empty_pattern && matches.len() > 1 {
+            order_checks += 1;
+        }
         for k in 1..matches.len() {
             let a = (std::cmp::Reverse(matches[k - 1].0), lens[k - 1], matches[k - 1].1);
             let b = (std::cmp::Reverse(matches[k].0), lens[k], matches[k].1);
@@ -1027,6 +1033,14 @@ impl World {
                     "matches-out-of-order",
                     format!("neighbours #{} {:?} len {} and #{k} {:?} len {} (empty pattern: {empty_pattern})", k - 1, matches[k - 1], lens[k - 1], matches[k], lens[k]),
                 );
+                if !empty_pattern {
+                    // the published list is the output of the parallel sort under the worker's comparison
+                    p(
+                        "C18",
+                        "published-matches-not-sorted-by-the-workers-total-order",
+                        format!("neighbours #{} {:?} len {} and #{k} {:?} len {}", k - 1, matches[k - 1], lens[k - 1], matches[k], lens[k]),
+                    );
+                }
                 break;
             }
         }
@@ -1146,6 +1160,7 @@ impl World {
         } else if matches.is_empty() && item_count == 0 {
             self.snap_stream = None;
         }
+        self.order_checks += order_checks;
         for (a, b, c) in problems {
             self.problem(&a, &b, c);
         }
@@ -1207,6 +1222,7 @@ impl World {
             rep.count("c15.multi-column-quiescent-states-compared");
         }
         rep.add("c15.ticks-after-edits-of-2+-columns", std::mem::take(&mut self.multi_edit_ticks));
+        rep.add("c18.published-match-lists-checked-for-order", std::mem::take(&mut self.order_checks));
         let (present, expected) = self.expected_quiescent();
         let snap = self.nucleo.as_ref().unwrap().snapshot();
         let got: Vec<(u32, u32)> = snap.matches().iter().map(|m| (m.score, m.idx)).collect();
